@@ -22,6 +22,7 @@ type faultSite struct {
 	Up    FaultKind `json:"up,omitempty"`
 	Busy  bool      `json:"busy,omitempty"` // SQL: SQLITE_BUSY instead of a generic error
 	Desc  string    `json:"desc"`           // what is at that ordinal in the recording run
+	Path  string    `json:"path,omitempty"` // innermost pegnetd functions issuing it (recording run)
 }
 
 type faultCase struct {
@@ -52,7 +53,7 @@ func runFaulty(sc *Scenario, dbPath string, sites []faultSite, record *[]faultSi
 		n := atomic.AddInt64(&sqlSeq, 1)
 		if record != nil {
 			mu.Lock()
-			*record = append(*record, faultSite{Layer: "sql", Seq: n, Desc: fmt.Sprintf("%s intx=%v %s", ev.Op, ev.InTx, trunc(strings.Join(strings.Fields(ev.SQL), " "), 70))})
+			*record = append(*record, faultSite{Layer: "sql", Seq: n, Desc: fmt.Sprintf("%s intx=%v %s", ev.Op, ev.InTx, trunc(strings.Join(strings.Fields(ev.SQL), " "), 70)), Path: callPath()})
 			mu.Unlock()
 		}
 		for i, s := range sites {
@@ -79,7 +80,7 @@ func runFaulty(sc *Scenario, dbPath string, sites []faultSite, record *[]faultSi
 		n := atomic.AddInt64(&upSeq, 1)
 		if record != nil {
 			mu.Lock()
-			*record = append(*record, faultSite{Layer: "up", Seq: n, Desc: fmt.Sprintf("%s h=%d", r.Kind, r.Height)})
+			*record = append(*record, faultSite{Layer: "up", Seq: n, Desc: fmt.Sprintf("%s h=%d", r.Kind, r.Height), Path: callPath()})
 			mu.Unlock()
 		}
 		for i, s := range sites {
@@ -130,7 +131,11 @@ func runFaulty(sc *Scenario, dbPath string, sites []faultSite, record *[]faultSi
 // activations (both zeroing calls), a snapshot + developer payout height, the
 // mint and mint-burn heights, with SPR sets, transfers and conversions.
 func genFaultChain(t *rapid.T) *Scenario {
-	switch rapid.IntRange(0, 7).Draw(t, "legacyFamily") {
+	switch rapid.IntRange(0, 8).Draw(t, "legacyFamily") {
+	case 3:
+		// two or three snapshot heights with eligible holders: the holder (staking) payouts
+		sc, _ := GenStakingScenario(t, nil)
+		return sc
 	case 0, 1:
 		// the PEG-bank eras (per-height 5,000 PEG payouts, then the bank table): statements that
 		// only the legacy rules issue (pn_bank, PEG-request outcomes, refunds)
@@ -194,16 +199,35 @@ func genFaultChain(t *rapid.T) *Scenario {
 
 var balanceCol = regexp.MustCompile(`\bp?[a-z]{2,5}_balance\b`)
 
-// siteClass groups fault sites for the stratified sample of the quick tier: upstream request
-// kind, or SQL operation + statement text (asset columns folded), so that every distinct
-// statement of the block pipeline — not just every kind of call — gets its fault.
+// callPath names the call site of the current SQL call / upstream request: the four innermost
+// pegnetd functions on the stack.
+func callPath() string {
+	fr := PegnetdFrames()
+	if len(fr) > 4 {
+		fr = fr[:4]
+	}
+	return strings.Join(fr, "<")
+}
+
+// siteClass groups fault sites for the stratified sample: upstream request kind + call path, or
+// SQL operation + call path + statement text (asset columns folded), so that every distinct
+// statement at every distinct call site of the block pipeline — not just every kind of call —
+// gets its fault (the same UPDATE issued for a miner reward, a developer payout or a holder
+// payout are three classes).
 func siteClass(s faultSite) string {
 	f := strings.Fields(s.Desc)
 	if len(f) == 0 {
 		return s.Layer
 	}
 	if s.Layer == "up" {
-		return s.Layer + ":" + f[0]
+		return s.Layer + ":" + f[0] + ":" + s.Path
+	}
+	if s.Path != "" {
+		sql := balanceCol.ReplaceAllString(strings.Join(f[2:], " "), "T_balance")
+		if len(sql) > 40 {
+			sql = sql[:40]
+		}
+		return s.Layer + ":" + f[0] + ":" + s.Path + ":" + sql
 	}
 	sql := balanceCol.ReplaceAllString(strings.Join(f[1:], " "), "T_balance")
 	if len(sql) > 70 {
@@ -249,8 +273,9 @@ func TestC10(t *testing.T) {
 		}
 		return
 	}
+	RunProbes(st, "C10")
 	knownSeen := map[string]int{}
-	maxSites := 60
+	maxSites := 90
 	pairs := 0
 	if tier() == "thorough" {
 		// chains with up to 2,500 sites are enumerated exhaustively (the 2.0 families always are),
@@ -356,12 +381,107 @@ func TestC10(t *testing.T) {
 	})
 	// report each registered swallowed-error site that actually showed
 	for _, f := range FindingsFor("C10") {
-		if f.Status == "known" && knownSeen[f.Key] > 0 {
+		already := false
+		for _, k := range st.Known {
+			if strings.Contains(k, f.Key) {
+				already = true
+			}
+		}
+		if f.Status == "known" && knownSeen[f.Key] > 0 && !already {
 			st.mu.Lock()
 			st.Known = append(st.Known, oneLine(fmt.Sprintf("KNOWN-FINDING: property=C10 %s [%s] %d injected faults at this call site changed the ledger", f.Key, trunc(f.What, 220), knownSeen[f.Key])))
 			st.mu.Unlock()
 		}
 	}
+}
+
+// siteProbe builds a registry probe: on a fixed chain of the given family, fail (once, generic SQL
+// error / transport error) the first few recorded sites whose call path contains fn; reproduced =
+// one of them changes the ledger.
+func siteProbe(family func(t *rapid.T) *Scenario, fn string) Probe {
+	return func() (bool, string, interface{}) {
+		for seed := 1; seed <= 3; seed++ {
+			sc := rapid.Custom(family).Example(seed)
+			dir, done := caseDir()
+			var sites []faultSite
+			ref, err := runFaulty(sc, dir+"/ref", nil, &sites)
+			if err != nil || ref.Dump == nil {
+				done()
+				return false, fmt.Sprintf("harness: probe reference run failed: %v", err), nil
+			}
+			tried := 0
+			for _, s := range sites {
+				if !strings.Contains(s.Path, fn) || tried >= 6 {
+					continue
+				}
+				tried++
+				if s.Layer == "up" {
+					s.Up = FaultKind(1)
+				}
+				c := &faultCase{Sc: sc, Sites: []faultSite{s}}
+				if msg, _, _ := checkFault(c, ref.Dump); msg != "" && !strings.HasPrefix(msg, "harness:") {
+					done()
+					return true, trunc(msg, 400), c
+				}
+			}
+			done()
+			if tried > 0 {
+				return false, fmt.Sprintf("%d faults inside %s left the ledger unchanged", tried, fn), nil
+			}
+		}
+		return false, "no site inside " + fn + " in the probe chains", nil
+	}
+}
+
+func activationFaultChain(t *rapid.T) *Scenario {
+	for {
+		// the activation-crossing 2.0 family of genFaultChain (zeroing, mint, mint burn, developer payout)
+		sc := genFaultChain(t)
+		if sc.Era.V204Burn != Never && sc.Era.V204Burn > sc.Chain.Start && sc.Era.V204Burn <= sc.Chain.Tip && sc.Era.V20Dev > sc.Chain.Start {
+			return sc
+		}
+	}
+}
+
+func stakingFaultChain(t *rapid.T) *Scenario {
+	sc, _ := GenStakingScenario(t, nil)
+	return sc
+}
+
+func init() {
+	RegisterProbe("C10/swallowed-NullifyBurnAddress", siteProbe(activationFaultChain, "NullifyBurnAddress"))
+	RegisterProbe("C10/swallowed-DevelopersPayouts", siteProbe(activationFaultChain, "DevelopersPayouts"))
+	RegisterProbe("C10/swallowed-NullifyMintedTokens", siteProbe(activationFaultChain, "NullifyMintedTokens"))
+	RegisterProbe("C10/swallowed-snapshot-fallback-rates", func() (bool, string, interface{}) {
+		// an ungraded snapshot height with eligible holders: the fallback read of earlier rates
+		for seed := 1; seed <= 40; seed++ {
+			sc := rapid.Custom(stakingFaultChain).Example(seed)
+			dir, done := caseDir()
+			var sites []faultSite
+			ref, err := runFaulty(sc, dir+"/ref", nil, &sites)
+			if err != nil || ref.Dump == nil {
+				done()
+				return false, fmt.Sprintf("harness: probe reference run failed: %v", err), nil
+			}
+			tried := 0
+			for _, s := range sites {
+				if !strings.HasPrefix(s.Path, "node/pegnet.(*Pegnet).SelectMostRecentRatesBeforeHeight<node.(*Pegnetd).SyncBlock") {
+					continue
+				}
+				tried++
+				c := &faultCase{Sc: sc, Sites: []faultSite{s}}
+				if msg, _, _ := checkFault(c, ref.Dump); msg != "" && !strings.HasPrefix(msg, "harness:") {
+					done()
+					return true, trunc(msg, 400), c
+				}
+			}
+			done()
+			if tried > 0 {
+				return false, fmt.Sprintf("%d faults at the fallback read left the ledger unchanged", tried), nil
+			}
+		}
+		return false, "no ungraded snapshot height in the probe chains", nil
+	})
 }
 
 func seqInts(n int) []int {
